@@ -8,6 +8,10 @@ import PPLV.WR.ReduceOctProofsPreserveMain
 import PPLV.WR.ReduceOctProofsAffDim
 import PPLV.WR.ReduceUBOctProofs
 import PPLV.WR.ReduceOctClosedB
+import PPLV.WR.OctClosedPathsMain
+import PPLV.WR.OctClosedModelMain
+import PPLV.WR.ReduceProofsUBCompleteMain
+import PPLV.WR.ReduceProofsUBCompleteOctMain
 /-!
 # C04 stage 2 — shortest-path reduction of `BD_Shape`, strong reduction of `Octagonal_Shape`, the exact-join tests
 
@@ -15,9 +19,9 @@ Statements about the code-shaped models `PPLV/WR/Reduce.lean`, `PPLV/WR/ReduceOc
 `BD_Shape_templates.hh` l. 979–1027, 2072–2168, 331, 6508 and `Octagonal_Shape_templates.hh` l. 2949–3217), for
 every size and every non-empty closed matrix over exact rationals with `+∞`.  `c.IsClosed` is what
 `shortest_path_closure_assign` leaves (`bds_closure_closed`).  For octagons the hypothesis is `c.IsStronglyClosed`
-(triangle inequality and strong coherence of the full view); that `strong_closure_assign` establishes it is not proved
-in `PPLV/WR/ClosureProofsOct.lean` — the driver evaluates the executable test `isStronglyClosedB`, equivalent to it
-(`oct_closed_test`), on every journalled matrix.  Exact arithmetic only: for an inexact `T` the pairing of the
+(triangle inequality and strong coherence of the full view), which is what the code-shaped model of
+`strong_closure_assign` establishes with exact arithmetic (`oct_strong_closure_closed`); the driver also evaluates the
+executable test `isStronglyClosedB`, equivalent to it (`oct_closed_test`), on every journalled matrix.  Exact arithmetic only: for an inexact `T` the pairing of the
 non-singular leaders (`oct_leaders_spec`, last clause) can fail and the code reads out of bounds (open finding KF-C03-61).  The models are tied to the library by exact replay
 (`harness/c04_reduce.cc`, `Driver/WRR.lean`, `checks/c04_reduce.py`).
 -/
@@ -249,8 +253,8 @@ example : bdsConstraints 3 exR0.e false (BMat.const true) =
 nested loops of the test find no `(i, j, k, ℓ)` with `x_ij < y_ij`, `y_kℓ < x_kℓ` (both kept) and
 `x_ij + y_kℓ < ub_iℓ + ub_kj`, the pointwise maximum `DBM.join x y` (what `upper_bound_assign` stores) denotes
 exactly the union: the union is convex and is a BD shape.
-Completeness (answer `false` ⇒ the union is not the join) is NOT proved here; on every journalled pair the driver
-decides both polarities with K1 (`subsetUnion`, proved sound and complete: `C04.ub_if_exact_spec`). -/
+Completeness: `bds_upper_bound_if_exact_complete` below; on every journalled pair the driver also decides both
+polarities with K1 (`subsetUnion`, proved sound and complete: `C04.ub_if_exact_spec`). -/
 theorem upper_bound_if_exact_sound {n : ℕ} (x y : DBM n) (hx : x.IsClosed) (hy : y.IsClosed) (xr yr : BMat)
     (hxr : bdsShortestPathReduction upId n x.e = some xr) (hyr : bdsShortestPathReduction upId n y.e = some yr)
     (ht : bdsBHZ09 upId n x.e y.e xr yr = true) :
@@ -335,7 +339,7 @@ theorem oct_affine_dimension_count {n : ℕ} (c : OctM n) (hc : c.IsStronglyClos
 
 /-- **`Octagonal_Shape::upper_bound_assign_if_exact`, soundness of the answer `true`**: for strongly closed `x`, `y`
 with the outputs of `non_redundant_matrix_entries`, when no `(i, j, k, ℓ)` satisfies the eight conditions of the test,
-the pointwise maximum denotes exactly the union.  (Completeness is not proved; K1 decides both polarities per run.) -/
+the pointwise maximum denotes exactly the union.  (Completeness: `oct_upper_bound_if_exact_complete`.) -/
 theorem oct_upper_bound_if_exact_sound {n : ℕ} (x y : OctM n) (hx : x.IsStronglyClosed) (hy : y.IsStronglyClosed)
     (xr yr : BMat) (hxr : octNonRedundantMatrixEntries upId n x.e = some xr)
     (hyr : octNonRedundantMatrixEntries upId n y.e = some yr)
@@ -387,6 +391,79 @@ example : OctM.γ (OctM.join exOU1 exOU2) = OctM.γ exOU1 ∪ OctM.γ exOU2 := b
     ((oct_closed_test exOU2).1 (by decide +kernel)) xr yr hxr hyr ?_
   have e : (do let a ← octNonRedundantMatrixEntries upId 1 exOU1.e; let b ← octNonRedundantMatrixEntries upId 1 exOU2.e
                pure (octUpperBoundIfExact upId 1 exOU1.e exOU2.e a b)) = some true := by decide +kernel
+  rw [hxr, hyr] at e
+  simpa using e
+
+/-! ## the whole pipeline: closure, then reduction / exact join — no hypothesis about the matrix left -/
+
+/-- **`strong_closure_assign` establishes strong closedness.**  Over exact rationals, when the code-shaped model of
+`Octagonal_Shape::strong_closure_assign` (`OctM.strongClosure`: diagonal filled with zeros, the three nested loops run
+twice, emptiness test, diagonal restored, `strong_coherence_assign`) does not report emptiness, the matrix it leaves
+satisfies `IsStronglyClosed` — the hypothesis of every octagon theorem above — and denotes the same set.
+(The two passes of the *weak* Floyd–Warshall step — each cell relaxed through `2h` and through `2h+1` from a snapshot,
+but not through both — close every matrix with a zero diagonal: `octTwo_closed`, a path argument; then Miné's lemma for
+the strong-coherence step.) -/
+theorem oct_strong_closure_closed {n : ℕ} (m : OctM n) (hne : OctM.strongClosureEmpty upId m = false) :
+    (OctM.strongClosure upId m).IsStronglyClosed ∧ OctM.γ (OctM.strongClosure upId m) = OctM.γ m :=
+  ⟨OctM.strongClosure_isStronglyClosed octTwo_closed m hne, OctM.strongClosure_γ m⟩
+
+/-- `strong_closure_assign` followed by `strong_reduction_assign` keeps the set of the original matrix. -/
+theorem oct_closure_reduction_preserves {n : ℕ} (m : OctM n) (hne : OctM.strongClosureEmpty upId m = false)
+    (nr : BMat) (h : octNonRedundantMatrixEntries upId n (OctM.strongClosure upId m).e = some nr) :
+    OctM.γ ((OctM.strongClosure upId m).reduced nr) = OctM.γ m := by
+  rw [oct_reduction_preserves _ (oct_strong_closure_closed m hne).1 nr h, (oct_strong_closure_closed m hne).2]
+
+/-- `shortest_path_closure_assign` followed by `shortest_path_reduction_assign` keeps the set of the original matrix
+(`bds_closure_closed` is about the code-shaped closure model `DBM.closure` of `PPLV/WR/Closure.lean`). -/
+theorem bds_closure_reduction_preserves {n : ℕ} (m : DBM n) (hne : DBM.closureEmpty upId m = false)
+    (red : BMat) (h : bdsShortestPathReduction upId n (DBM.closure upId m).e = some red) :
+    DBM.γ ((DBM.closure upId m).reduced red) = DBM.γ m := by
+  rw [bds_reduction_preserves _ (bds_closure_closed m hne) red h, (C03.closure_exact m hne).1]
+
+/-- **Completeness of `BHZ09_upper_bound_assign_if_exact`**: for non-empty closed `x`, `y` (whatever the redundancy
+bits), when the test answers `false` some point of the join lies in neither operand, and the union is not the set of
+any BD shape. -/
+theorem bds_upper_bound_if_exact_complete {n : ℕ} (x y : DBM n) (hx : x.IsClosed) (hy : y.IsClosed) (xr yr : BMat)
+    (ht : bdsBHZ09 upId n x.e y.e xr yr = false) :
+    (∃ p, p ∈ DBM.γ (DBM.join x y) ∧ p ∉ DBM.γ x ∧ p ∉ DBM.γ y) ∧
+    ¬ ∃ Q : DBM n, DBM.γ Q = DBM.γ x ∪ DBM.γ y :=
+  bdsBHZ09_complete x y hx hy xr yr ht
+
+/-- the test answers `true` exactly when the union already is the BD shape `join x y` -/
+theorem upper_bound_if_exact_iff {n : ℕ} (x y : DBM n) (hx : x.IsClosed) (hy : y.IsClosed) (xr yr : BMat)
+    (hxr : bdsShortestPathReduction upId n x.e = some xr) (hyr : bdsShortestPathReduction upId n y.e = some yr) :
+    bdsBHZ09 upId n x.e y.e xr yr = true ↔ DBM.γ (DBM.join x y) = DBM.γ x ∪ DBM.γ y :=
+  bdsBHZ09_iff x y hx hy xr yr hxr hyr
+
+/-- **Completeness of `Octagonal_Shape::upper_bound_assign_if_exact`** (the eight conditions). -/
+theorem oct_upper_bound_if_exact_complete {n : ℕ} (x y : OctM n) (hx : x.IsStronglyClosed) (hy : y.IsStronglyClosed)
+    (xr yr : BMat) (ht : octUpperBoundIfExact upId n x.e y.e xr yr = false) :
+    (∃ p, p ∈ OctM.γ (OctM.join x y) ∧ p ∉ OctM.γ x ∧ p ∉ OctM.γ y) ∧
+    ¬ ∃ Q : OctM n, OctM.γ Q = OctM.γ x ∪ OctM.γ y :=
+  octUB_complete x y hx hy xr yr ht
+
+theorem oct_upper_bound_if_exact_iff {n : ℕ} (x y : OctM n) (hx : x.IsStronglyClosed) (hy : y.IsStronglyClosed)
+    (xr yr : BMat) (hxr : octNonRedundantMatrixEntries upId n x.e = some xr)
+    (hyr : octNonRedundantMatrixEntries upId n y.e = some yr) :
+    octUpperBoundIfExact upId n x.e y.e xr yr = true ↔ OctM.γ (OctM.join x y) = OctM.γ x ∪ OctM.γ y :=
+  octUB_iff x y hx hy xr yr (oct_reduction_preserves x hx xr hxr) (oct_reduction_preserves y hy yr hyr)
+
+-- non-vacuity: `exO = strongClosure exO0` is strongly closed by the theorem (no evaluation of the test needed) …
+example : exO.IsStronglyClosed := (oct_strong_closure_closed exO0 (by decide +kernel)).1
+example : ∃ nr, octNonRedundantMatrixEntries upId 2 exO.e = some nr ∧ OctM.γ (exO.reduced nr) = OctM.γ exO0 := by
+  obtain ⟨nr, h⟩ := oct_reduction_total exO exO_closed
+  exact ⟨nr, h, oct_closure_reduction_preserves exO0 (by decide +kernel) nr h⟩
+example : ∃ red, bdsShortestPathReduction upId 3 exR.e = some red ∧ DBM.γ (exR.reduced red) = DBM.γ exR0 := by
+  obtain ⟨red, h⟩ := bds_reduction_total exR
+  exact ⟨red, h, bds_closure_reduction_preserves exR0 (by decide +kernel) red h⟩
+-- … and `[0,1] ∪ [2,3]` (`exU1`, `exU3`: the test answers `false`) is not a BD shape
+example : ¬ ∃ Q : DBM 1, DBM.γ Q = DBM.γ exU1 ∪ DBM.γ exU3 := by
+  obtain ⟨xr, hxr⟩ := bds_reduction_total exU1
+  obtain ⟨yr, hyr⟩ := bds_reduction_total exU3
+  refine (bds_upper_bound_if_exact_complete exU1 exU3 (bds_closure_closed _ (by decide +kernel))
+    (bds_closure_closed _ (by decide +kernel)) xr yr ?_).2
+  have e : (do let a ← bdsShortestPathReduction upId 1 exU1.e; let b ← bdsShortestPathReduction upId 1 exU3.e
+               pure (bdsBHZ09 upId 1 exU1.e exU3.e a b)) = some false := by decide +kernel
   rw [hxr, hyr] at e
   simpa using e
 
